@@ -658,9 +658,27 @@ impl<'a, F: EvalComptimeFn> InferenceCtx<'a, F> {
                     // will cause lots of incorrect circular definition errors.
                     // It seems to be because the cyclic globals need to be run
                     // before the cyclic lambdas are run.
+                    //
+                    // Among the globals the ones that are functions go first: a function gets
+                    // its signature from its header alone, so after that it is resolved for
+                    // everything else on the cycle. In textual order `handler :: step;` written
+                    // above `step :: (n: i64) -> i64 { .. handler(n - 1) .. }` was inferred
+                    // first, saw the placeholder of `step` and reported a circular definition,
+                    // while the same two definitions the other way around were accepted.
+                    let is_function = |global: &hir::common::ConcreteGlobalLoc| {
+                        let naive = global.to_naive();
+                        !self.world_bodies.global_is_extern(naive)
+                            && matches!(
+                                self.world_bodies[naive.file()]
+                                    [self.world_bodies.global_body(naive)],
+                                hir::Expr::Lambda(_)
+                            )
+                    };
                     cyclic.sort_by(|left, right| match (left, right) {
                         (ConcreteLoc::Global(l_global), ConcreteLoc::Global(r_global)) => {
-                            l_global.cmp(r_global)
+                            is_function(r_global)
+                                .cmp(&is_function(l_global))
+                                .then(l_global.cmp(r_global))
                         }
                         (ConcreteLoc::Lambda(l_lambda), ConcreteLoc::Lambda(r_lambda)) => {
                             l_lambda.cmp(r_lambda)
